@@ -174,12 +174,15 @@ func mapDefers(p *Program, f func(c *Cmd)) *Program {
 // emptyDefers empties the body of every deferred lambda literal.
 func emptyDefers(p *Program) *Program {
 	return mapDefers(p, func(c *Cmd) {
-		for _, a := range c.Args {
-			if l, ok := a.(*Lambda); ok {
-				l.Body = &Chunk{}
-			}
+		if len(c.Args) == 1 && len(c.Opts) == 0 {
+			c.Args[0] = &Lambda{Rest: -1, Body: &Chunk{}}
 		}
 	})
+}
+
+// noDefers turns every `defer x` into `nop x`.
+func noDefers(p *Program) *Program {
+	return mapDefers(p, func(c *Cmd) { c.Head = &Str{S: "nop"} })
 }
 
 // Check runs p on both sides, and on a mismatch shrinks and classifies it.
@@ -211,7 +214,9 @@ func Check(p *Program, b *Budget) Verdict {
 	// that survives emptying every deferred callback is caused by the
 	// registration itself. This class gets one fixed signature.
 	if p.Kinds()["defer"] {
-		if pe := emptyDefers(p); still(pe) {
+		// (and the mismatch must really hinge on the registration: without
+		// any defer call the two sides agree)
+		if pe := emptyDefers(p); still(pe) && !still(noDefers(p)) {
 			v.Sig = "defer-empty-callback"
 			target = pe
 			if b.PerSig[v.Sig] >= 2 {
@@ -228,8 +233,8 @@ func Check(p *Program, b *Budget) Verdict {
 		b.FullShrinks--
 	}
 	small := Shrink(target, func(q *Program) bool {
-		if v.Sig == "defer-empty-callback" && !q.Kinds()["defer"] {
-			return false
+		if v.Sig == "defer-empty-callback" {
+			return q.Kinds()["defer"] && still(q) && !still(noDefers(q))
 		}
 		return still(q)
 	}, b.ShrinkTests)
